@@ -18,7 +18,10 @@
     ([C05_inlining_is_free]). The copies made by the inlining function keep the identifiers of
     the recursion nodes of the declaration; the real front end numbers the copies afresh,
     which changes only generated names of implicit components (monitor O05 compares up to
-    those). Both semantics (the code's and the lexical one).
+    those). Declaration order is free in evaluation: a program whose declarations stand at other
+    positions, with every use re-indexed, evaluates to the same result up to the positions
+    recorded in the keys of implicit components and in function values
+    ([C05_declaration_order_is_free]). Both semantics (the code's and the lexical one).
     Proved here (partial), for every syntax tree and environment: parenthesising a
     sub-expression and renaming identifiers by any injective renaming leave the binding
     relation computed by name resolution unchanged (hence acceptance by the resolver and the
@@ -28,7 +31,7 @@
     rewrite engine of the check (monitor O05) on generated programs; two annotation-related
     exceptions are recorded as known findings (K13, K15). *)
 From Oal Require Import Resolve ResolveProofs RewriteProofs.
-From Oal Require Eval EvalProofs FuelProofs ParenProofs InlineProofs.
+From Oal Require Eval EvalProofs FuelProofs ParenProofs InlineProofs KeyMap.
 
 Theorem C05_paren_resolution_partial : forall en t, lex en (RNode [t]) = lex en t.
 Proof. exact paren_resolution. Qed.
@@ -128,3 +131,17 @@ Example C05_inlining_nonvacuous :
             Eval.eval_program false (InlineProofs.inline_prog InlineProofs.ex_inl_P 0%N 0%N d) 50
                               (map (InlineProofs.inline_expr 0%N 0%N d) InlineProofs.ex_inl_rs) = Eval.Ok r.
 Proof. exact InlineProofs.ex_inlining. Qed.
+
+(** permuting the declarations of the modules *)
+Theorem C05_declaration_order_is_free : forall fd : N -> N -> N, (forall m i j, fd m i = fd m j -> i = j) ->
+  forall lx P P' n rs, KeyMap.permuted fd P P' ->
+  Eval.eval_program lx P' n (map (KeyMap.km_expr fd) rs) = KeyMap.rmap (KeyMap.km_result KeyMap.ids fd) (Eval.eval_program lx P n rs).
+Proof. exact KeyMap.declaration_order_is_free. Qed.
+Print Assumptions C05_declaration_order_is_free.
+
+Example C05_declaration_order_nonvacuous :
+  KeyMap.permuted KeyMap.swap01 KeyMap.ex_perm_P KeyMap.ex_perm_P' /\ KeyMap.ex_perm_P' <> KeyMap.ex_perm_P /\
+  exists r, Eval.eval_program false KeyMap.ex_perm_P 50 KeyMap.ex_perm_rs = Eval.Ok r /\
+            Eval.eval_program false KeyMap.ex_perm_P' 50 (map (KeyMap.km_expr KeyMap.swap01) KeyMap.ex_perm_rs) =
+            Eval.Ok (KeyMap.km_result KeyMap.ids KeyMap.swap01 r).
+Proof. split; [exact KeyMap.ex_permuted|exact KeyMap.ex_permute_declarations]. Qed.
